@@ -60,6 +60,10 @@ type scenario struct {
 	// SameBase: the script files all have the same base name, in different
 	// directories (RunT disambiguates the test names: same, same#1, ...)
 	SameBase bool `json:"same_base"`
+	// Bases: the base names (without .txt) of the script files, each file in a
+	// directory of its own; names that RunT has to tell apart ("foo#1" next to
+	// two files called "foo")
+	Bases []string `json:"bases,omitempty"`
 	// TestWork: Params.TestWork set without WorkdirRoot: work directories (and
 	// with them the shared root) are to be kept
 	TestWork bool `json:"test_work,omitempty"`
@@ -73,6 +77,9 @@ func (s scenario) String() string {
 	sb := ""
 	if s.SameBase {
 		sb = " same-file-base-name"
+	}
+	if s.Bases != nil {
+		sb += fmt.Sprintf(" file-base-names=%q", s.Bases)
 	}
 	if s.TestWork {
 		sb += " TestWork"
@@ -114,6 +121,20 @@ func scriptName(i int, kind string) string { return fmt.Sprintf("s%d%s", i, stri
 
 // testName is the name RunT gives script i of the scenario.
 func (s scenario) testName(i int) string {
+	if s.Bases != nil {
+		// every script has a name of its own: the base name, or if that is taken
+		// the base name followed by #1, #2, ... (the first that is free)
+		taken := map[string]bool{}
+		name := ""
+		for k := 0; k <= i; k++ {
+			name = s.Bases[k]
+			for n := 1; taken[name]; n++ {
+				name = fmt.Sprintf("%s#%d", s.Bases[k], n)
+			}
+			taken[name] = true
+		}
+		return name
+	}
 	if !s.SameBase {
 		return scriptName(i, s.Scripts[i])
 	}
@@ -247,6 +268,12 @@ func (in *instance) body() {
 	in.post = ""
 	var files []string
 	for i, k := range in.sc.Scripts {
+		if in.sc.Bases != nil {
+			d := filepath.Join(scripts, fmt.Sprintf("dir%d", i))
+			os.MkdirAll(d, 0o777)
+			files = append(files, tsh.WriteScript(d, in.sc.Bases[i]+".txt", in.scriptText(k)))
+			continue
+		}
 		if in.sc.SameBase {
 			d := filepath.Join(scripts, fmt.Sprintf("dir%d", i))
 			os.MkdirAll(d, 0o777)
@@ -520,6 +547,11 @@ func scenarios(th bool) []scenario {
 	for _, p := range [][]string{{"P", "F"}, {"K", "T"}, {"B", "D"}, {"P"}, {"F"}} {
 		scs = append(scs, scenario{Scripts: p, TestWork: true, Bound: b2})
 	}
+	// file names that collide with the names RunT makes up to tell duplicates apart
+	for _, bases := range [][]string{{"foo#1", "foo", "foo"}, {"foo", "foo#1", "foo"}, {"foo", "foo", "foo#1"}, {"foo#2", "foo#1", "foo"}} {
+		scs = append(scs, scenario{Scripts: []string{"P", "E", "F"}, Bound: 1, Bases: bases})
+	}
+	scs = append(scs, scenario{Scripts: []string{"P", "F"}, Bound: b2, Bases: []string{"foo#1", "foo#1"}}, scenario{Scripts: []string{"P", "E", "F", "P"}, Bound: 0, Bases: []string{"foo#1", "foo", "foo", "foo"}})
 	// single scripts: every exit path on its own (cleanup with one script)
 	for k := range kinds {
 		if k == "X" || k == "Y" {
